@@ -79,6 +79,7 @@ FieldFails(e, g) ==
   \cup (IF e.kind # "nope" THEN {}
         ELSE IF m.ver >= 1 /\ m.nope /\ ~m.burst.has /\ m.rssi = -110 /\ m.toa = 0 /\ m.ci = -30 THEN {} ELSE {"C18.nope-indication"})
   \cup (IF e.kind # "burst" THEN {}
+        ELSE IF m.ver >= 1 /\ m.nope THEN {"C18.unrequested-suppression"}     \* a NOPE where the burst was due
         ELSE (IF m.burst.has /\ m.burst.bits = e.bits THEN {} ELSE {"C10.bits"})
              \cup (IF InWin(m.rssi, e.rssi) THEN {} ELSE {"C10.rssi"})
              \cup (IF InWin(m.toa, e.toa) THEN {} ELSE {"C10.toa"})
@@ -104,7 +105,7 @@ Align(exp, got) ==
        ELSE Align(Tail(exp), got)
 
 AlignTags == {"C02.unexpected-delivery", "C02.missing-delivery", "C18.nope-missing", "C18.suppressed-burst-sent-on-v0",
-              "C18.nope-indication", "C13.invalid-message-sent", "C12.ports", "C10.version-of-recipient",
+              "C18.nope-indication", "C18.unrequested-suppression", "C13.invalid-message-sent", "C12.ports", "C10.version-of-recipient",
               "C10.legacy-padding", "C10.bits", "C10.rssi", "C10.toa", "C10.modulation-tsc", "C10.ci"}
 
 TTick ==
@@ -122,6 +123,7 @@ TTick ==
      /\ Tag("C18.nope-missing", "C18.nope-missing" \notin F)
      /\ Tag("C18.suppressed-burst-sent-on-v0", "C18.suppressed-burst-sent-on-v0" \notin F)
      /\ Tag("C18.nope-indication", "C18.nope-indication" \notin F)
+     /\ Tag("C18.unrequested-suppression", "C18.unrequested-suppression" \notin F)
      /\ Tag("C13.invalid-message-sent", "C13.invalid-message-sent" \notin F)
      /\ Tag("C12.ports", "C12.ports" \notin F)
      /\ Tag("C10.version-of-recipient", "C10.version-of-recipient" \notin F)
